@@ -10,6 +10,9 @@
 import ClairModel.Proofs.Coalesce
 import ClairModel.Proofs.LayerFS
 
+-- every variable of a property statement is bound explicitly: a misspelt name is an error, not a new variable
+set_option autoImplicit false
+
 namespace ClairModel.Props.C01
 open ClairModel ClairModel.Coalesce ClairModel.LayerFS
 
